@@ -2443,6 +2443,10 @@ namespace xsimd
                 auto inf_result = (a == constants::infinity<B>());
                 x = select(inf_result, B(2.), x);
 #endif
+                // gamma overflows above large_limit: park those lanes instead of running the
+                // x -> x - 1 recurrence on them, its trip count is proportional to the argument
+                auto large = (a > stirling_kernel<B>::large_limit() + B(1.));
+                x = select(large, B(2.), x);
                 B z = B(1.);
                 auto test1 = (x >= B(3.));
                 while (any(test1))
@@ -2469,6 +2473,7 @@ namespace xsimd
                     test2 = (x < B(2.));
                 }
                 x = z * tgamma_kernel<B>::compute(x - B(2.));
+                x = select(large, constants::infinity<B>(), x);
 #ifndef XSIMD_NO_INFINITIES
                 return select(inf_result, a, x);
 #else
